@@ -53,7 +53,8 @@ def make_inputs(rng, kind):
     if kind == "valid_single":
         prog = pngen.generate(rng, n_funcs=rng.randint(2, 6))
         # source files need not be called *.pn
-        name = rng.choice(["main.pn"] * 5 + ["prog.penne", "prog", "my.prog.txt", "sub/dir/deep.pn", "a.b.pn", ".hidden.pn", "dir.d/x.y.pn"])
+        name = rng.choice(["main.pn"] * 5 + ["prog.penne", "prog", "my.prog.txt", "sub/dir/deep.pn", "a.b.pn", ".hidden.pn", "dir.d/x.y.pn",
+                                             "lib\udcfe.pn"])   # the last one is not valid UTF-8 (a lone 0xFE byte)
         return {name: prog.single_file().encode()}, [name], True, True, [name]
     if kind in ("valid_multi", "invalid_multi"):
         prog = pngen.generate(rng, n_funcs=rng.randint(3, 7))
@@ -135,18 +136,18 @@ def make_scenario(rng, sub=None, input_kind=None, force=None):
     if color == "auto":
         sc["env"]["TERM"] = rng.choice(["dumb", "xterm-256color"])
     # out-dir
-    od_kind = force.get("out_dir", rng.choice(["absent", "fresh", "fresh", "existing", "nested", "stale"] if sub != "emit" else ["fresh", "fresh", "existing", "nested", "stale", "absent"]))
+    od_kind = force.get("out_dir", rng.choice(["absent", "fresh", "fresh", "existing", "nested", "stale", "dot"] if sub != "emit" else ["fresh", "fresh", "existing", "nested", "stale", "dot", "absent"]))
     sc["out_dir_kind"] = od_kind
     sc["out_dir"] = None
     if od_kind != "absent":
-        sc["out_dir"] = {"fresh": "out", "existing": "out", "nested": "build/ir/out", "stale": "out"}[od_kind]
+        sc["out_dir"] = {"fresh": "out", "existing": "out", "nested": "build/ir/out", "stale": "out", "dot": rng.choice([".", "./"])}[od_kind]
         if od_kind == "existing":
             sc["pre_dirs"].append("out")
         if od_kind == "stale":
             # an earlier emit left artefacts behind (newer than the sources)
             for m in modules:
                 rel = artefact_rel(m)
-                sc["pre_files"][os.path.join("out", rel)] = ("; ModuleID = '%s'\n; stale artefact of an earlier emit\n" % m).encode()
+                sc["pre_files"][os.path.join("out", rel)] = (("; ModuleID = '%s'\n" % m) + "; stale artefact of an earlier emit, longer than any new one\n" * 6000).encode("utf-8", "replace")
         sc["opts"] += ["--out-dir", sc["out_dir"]]
     if sub in ("build", "build_default", "emit") and opt("wasm", 0.12):
         sc["wasm"] = True
@@ -332,6 +333,8 @@ def exec_scenario(sc, wd, plan=None, keep=False, real_lli=False, restart=False, 
             for dp, _d, names in sorted(os.walk(od)):
                 for n in sorted(names):
                     p = os.path.join(dp, n)
+                    if not n.endswith(".ll") or os.path.relpath(dp, od).split(os.sep)[0] == "bin":
+                        continue    # artefacts only (the out-dir may be the run directory itself)
                     if os.path.islink(p) or not os.path.isfile(p):
                         obs["artefacts"][os.path.relpath(p, od)] = b"<not a regular file>"
                         continue
@@ -342,7 +345,7 @@ def exec_scenario(sc, wd, plan=None, keep=False, real_lli=False, restart=False, 
             for line in f.read().splitlines():
                 rec = dict(kv.split("=", 1) for kv in line.split(" ") if "=" in kv)
                 args = bytes.fromhex(rec.get("argv", "")).split(b"\x00")[:-1]
-                rec["args"] = [a.decode(errors="replace") for a in args]
+                rec["args"] = [os.fsdecode(a) for a in args]
                 obs["marker"].append(rec)
                 sp = os.path.join(wd, "marker.stdin." + rec["id"])
                 if os.path.exists(sp):
@@ -524,7 +527,7 @@ def judge(sc, obs, census, plan_kind, benign, self_census=False):
                 elif census is not None and census["rc"] == 0 and data != census.get("artefacts_ref", census["artefacts"]).get(rel):
                     viol.append(("artefact_corrupt", "exit 0 but %s differs from the fault-free run into a fresh directory (%d vs %d bytes)" %
                                  (rel, len(data), len(census.get("artefacts_ref", census["artefacts"]).get(rel, b"")))))
-                elif not data.startswith(b"; ModuleID = '%s'" % m.encode()):
+                elif not data.startswith(b"; ModuleID = '%s'" % os.fsencode(m).decode("utf-8", "replace").encode()):
                     viol.append(("artefact_corrupt", "%s does not start with its ModuleID line" % rel))
         if sc["sub"] != "emit":
             recs = [m for m in obs["marker"]]
